@@ -496,6 +496,16 @@ pub trait Payload: Sized + Clone + 'static {
     fn live_now() -> Option<i64> {
         None
     }
+    /// (made, dropped) so far in this case (only known for counted ZSTs)
+    fn z_stats() -> Option<(u64, u64)> {
+        None
+    }
+    /// the value can change through a shared reference
+    const INTERIOR_MUT: bool = false;
+    /// interior mutation through `&self` (only for payloads with INTERIOR_MUT): returns the new value
+    fn bump(&self) -> Option<u64> {
+        None
+    }
 }
 
 impl<A: Al, const TAG: u8> Payload for Tok<A, TAG> {
@@ -527,6 +537,9 @@ impl<const Z: usize> Payload for TokZ<Z> {
     }
     fn live_now() -> Option<i64> {
         Some(z_live(Z))
+    }
+    fn z_stats() -> Option<(u64, u64)> {
+        Some((z_made(Z), z_dropped(Z)))
     }
 }
 
@@ -587,5 +600,78 @@ impl<A: Al> Payload for Plain<A> {
     }
     fn tyname() -> String {
         format!("Plain<align {}> (no drop glue)", A::ALIGN)
+    }
+}
+
+/// A payload without drop glue whose value can be changed through a shared reference (an atomic):
+/// lets the schedule engine check that a value moved out by the unwrap family is the *current* one.
+#[repr(C)]
+pub struct Bump<A: Al> {
+    _a: [A; 0],
+    val: std::sync::atomic::AtomicU64,
+}
+pub type Bump8 = Bump<A8>;
+
+impl<A: Al> Bump<A> {
+    fn get(&self) -> u64 {
+        self.val.load(std::sync::atomic::Ordering::Relaxed)
+    }
+}
+impl<A: Al> Clone for Bump<A> {
+    fn clone(&self) -> Self {
+        callback_point("clone");
+        untracked(|| reg().clones += 1);
+        Bump { _a: [], val: std::sync::atomic::AtomicU64::new(self.peekp().val) }
+    }
+}
+impl<A: Al> Default for Bump<A> {
+    fn default() -> Self {
+        Self::make(0)
+    }
+}
+impl<A: Al> PartialEq for Bump<A> {
+    fn eq(&self, o: &Self) -> bool {
+        callback_point("eq");
+        self.get() == o.get()
+    }
+}
+impl<A: Al> PartialOrd for Bump<A> {
+    fn partial_cmp(&self, o: &Self) -> Option<CmpOrdering> {
+        callback_point("partial_cmp");
+        self.get().partial_cmp(&o.get())
+    }
+}
+impl<A: Al> Hash for Bump<A> {
+    fn hash<H: Hasher>(&self, h: &mut H) {
+        callback_point("hash");
+        self.get().hash(h)
+    }
+}
+impl<A: Al> fmt::Debug for Bump<A> {
+    fn fmt(&self, f: &mut fmt::Formatter<'_>) -> fmt::Result {
+        callback_point("fmt");
+        write!(f, "B{}", self.get())
+    }
+}
+impl<A: Al> Payload for Bump<A> {
+    const INTERIOR_MUT: bool = true;
+    fn make(val: u64) -> Self {
+        Bump { _a: [], val: std::sync::atomic::AtomicU64::new(val) }
+    }
+    fn peekp(&self) -> Peek {
+        sim::payload_access(self as *const Self as usize, sim::Access::Read);
+        Peek { id: NONE, val: self.get(), ok: true }
+    }
+    fn setp(&mut self, val: u64) {
+        sim::payload_access(self as *const Self as usize, sim::Access::Write);
+        *self.val.get_mut() = val;
+    }
+    fn bump(&self) -> Option<u64> {
+        // an atomic update through `&self`: a scheduling point, ordered like a read by the race oracle
+        sim::payload_access(self as *const Self as usize, sim::Access::Read);
+        Some(self.val.fetch_add(1, std::sync::atomic::Ordering::Relaxed) + 1)
+    }
+    fn tyname() -> String {
+        format!("Bump<align {}> (atomic value, no drop glue)", A::ALIGN)
     }
 }
